@@ -396,9 +396,17 @@ def run(ctx: Ctx, rs: RuleSet, tier: str):
              'fiddle._src.mutate_buildable.move_buildable_internals']
   def is_root_result(e):
     e = roles.deref(rp, e) if e is not None else None
-    return isinstance(e, ast.Call) and unparse(e.func) in (
-        'traverse', tr.name) and bool(e.args) and unparse(
-            e.args[0]) == f'{rp.params[0]}.cfg'
+    if not (isinstance(e, ast.Call) and bool(e.args) and unparse(
+        e.args[0]) == f'{rp.params[0]}.cfg'):
+      return False
+    if unparse(e.func) in ('traverse', tr.name):
+      return True
+    # the callback is an object made here: `replacer = _Replacer(...)`
+    base = getattr(tr, '_base', None) or tr
+    d = roles.deref(rp, e.func) if isinstance(e.func, ast.Name) else None
+    return isinstance(d, ast.Call) and getattr(
+        base, 'cls', None) is not None and p.resolve(
+            d.func, rp) == base.cls.qualname
 
   ok = len(root_mv) == 1 and kwarg(
       root_mv[0], 'destination') is not None and unparse(
